@@ -58,6 +58,16 @@ class KeySrc:
         return v
 
 
+class _Owner:
+    """An application object whose bound method is the key source; nothing but that bound method refers to it."""
+
+    def __init__(self, ks):
+        self._ks = ks
+
+    def next_key(self, n):
+        return self._ks(n)
+
+
 def one_case(c):
     """c: dict(entry, op, fin, ptype, keysrc, trace, payload(bytes or str)) -> failure or None"""
     lib.reset_globals()
@@ -72,11 +82,18 @@ def one_case(c):
             ws = env.make_ws(sock, **kw)
         else:
             ks = KeySrc(c["keysrc"])
+            src = ks
+            if "tempowner" in cfg:
+                src = _Owner(ks).next_key
             if c.get("via_ctor"):
-                ws = env.make_ws(sock, get_mask_key=ks, **kw)
+                ws = env.make_ws(sock, get_mask_key=src, **kw)
             else:
                 ws = env.make_ws(sock, **kw)
-                ws.set_mask_key(ks)
+                ws.set_mask_key(src)
+            if "tempowner" in cfg:
+                del src
+                import gc
+                gc.collect()
         if "timeout" in cfg:
             ws.settimeout(5)
         if "short7" in cfg:
@@ -341,7 +358,7 @@ def run_task(desc):
                                     run(mk(entry, op, fin, ptype, keysrc, trace, n, ck, via_ctor=(n % 2 == 1)))
                                     if ck in ("ramp", "text-1b") and not trace:
                                         # the same frame on a connection without locks (enable_multithread=False) and / or with a socket timeout
-                                        for cfg in ("nomt", "timeout", "nomt+timeout", "short7", "shorthalf", "nomt+shorthalf"):
+                                        for cfg in ("nomt", "timeout", "nomt+timeout", "short7", "shorthalf", "nomt+shorthalf") + (("tempowner",) if keysrc != "default" else ()):
                                             run(dict(mk(entry, op, fin, ptype, keysrc, trace, n, ck, via_ctor=(n % 2 == 0)), cfg=cfg))
         res["samples"].append({"entry": entry, "opcode": op, "boundary_lengths": BOUNDARY[:12]})
     elif part == "strop":
